@@ -185,6 +185,45 @@ func TestVerifC16(t *testing.T) {
 				r.Violate("", "the job table and the time index disagree: "+p[0], J{"history": run, "problems": p})
 			}
 		}
+		if si%2 == 0 {
+			// directed prelude: the id of a one-shot job that has fired stays taken until the job is
+			// evicted (TTL 700 ms); re-adding it in that window is refused and changes nothing,
+			// after the eviction it works again
+			gen++
+			up := fmt.Sprintf("%s/hit/%d/%s/%s/%d", srv.URL, si, "accE", "once", gen)
+			j1 := &Job{Account: "accE", Id: "once", Expression: "100ms", Method: "GET", URL: up}
+			before := time.Now()
+			if err := c.Add(j1); err != nil {
+				r.Violate("", "Add failed: "+err.Error(), J{"history": run})
+			}
+			due1, _ := vParseTId(j1.TId)
+			v1 := &vJob{account: "accE", id: "once", gen: gen, expr: "100ms", due: due1, addedAt: before}
+			all = append(all, v1)
+			jobsByKey["accE,once"] = v1
+			run = append(run, vOp{Op: "add", Account: "accE", Id: "once", Expr: "100ms"})
+			time.Sleep(160 * time.Millisecond)
+			tickAll()
+			run = append(run, vOp{Op: "tick"})
+			check()
+			gen++
+			j2 := &Job{Account: "accE", Id: "once", Expression: "100ms", Method: "GET", URL: fmt.Sprintf("%s/hit/%d/%s/%s/%d", srv.URL, si, "accE", "once", gen)}
+			err := c.Add(j2)
+			run = append(run, vOp{Op: "add", Account: "accE", Id: "once", Expr: "100ms", Err: fmt.Sprint(err)})
+			r.Count("crolt_readd_in_eviction_window", 1)
+			if err == nil {
+				// accepted: then it is a job like any other (must fire once, buckets must agree)
+				r.Count("crolt_readd_in_eviction_window_accepted", 1)
+				d2, _ := vParseTId(j2.TId)
+				v2 := &vJob{account: "accE", id: "once", gen: gen, expr: "100ms", due: d2, addedAt: time.Now()}
+				all = append(all, v2)
+				jobsByKey["accE,once"] = v2
+			} else if err != Exists {
+				r.Violate("", "Add failed: "+err.Error(), J{"history": run})
+			}
+			check()
+			tickAll()
+			check()
+		}
 		steps := 10 + rng.Intn(12)
 		for s := 0; s < steps; s++ {
 			o := vOp{Account: accounts[rng.Intn(3)], Id: idpool[rng.Intn(3)]}
